@@ -65,11 +65,48 @@ theorem dateBasic_inside (n : Int) (fs : List BasicFact) (h : ∀ f ∈ fs, Basi
     simp only
     split <;> (unfold Tok.Inside; simp only; omega)
 
-/-- … but the token is placed at the FIRST occurrence of the matched text (`source.index(match.group())`), not at
-the match: in `"15/12 and 5/12"` the match `5/12` at `[10, 14)` yields the token `[1, 5)`, which `merge_all_tokens`
-then drops as contained in `15/12` — the second date is lost (not a span defect; monitored, not claimed). -/
+/-- PRE-FIX REGRESSION (tree without basic-regex-first-occurrence.diff): the token is placed at the FIRST occurrence
+of the matched text (`source.index(match.group())`), not at the match: in `"15/12 and 5/12"` the match `5/12` at
+`[10, 14)` yields the token `[1, 5)`, which `merge_all_tokens` then drops as contained in `15/12` — the second date
+is lost (inside the text, so neither C01 nor C12 fails; a recall defect). -/
 theorem dateBasic_first_occurrence :
-    dateBasic [⟨0, ⟨0, 5⟩, none⟩, ⟨1, ⟨10, 14⟩, none⟩] = [⟨0, 5⟩, ⟨1, 5⟩] := by decide
+    dateBasicV Variant.current [⟨0, ⟨0, 5⟩, none⟩, ⟨1, ⟨10, 14⟩, none⟩] = [⟨0, 5⟩, ⟨1, 5⟩] := by decide
+
+/-- facts of the repaired `basic_regex_match`: the relative-term match lies in `source[0:match.start()]`. -/
+def BasicOKFixed (n : Int) (f : BasicFact) : Prop := f.m.In n ∧ optP f.rel (fun c => c.In f.m.s)
+
+/-- REPAIRED variant, full strength: every token lies inside the text, ENDS where its match ends and starts at the
+match or at the relative term in front of it — every validated match is covered by its own token, wherever else
+its text occurs. -/
+theorem dateBasic_fixed_covers_match (n : Int) (v : Variant) (hv : v.basicMatchStart = true) (fs : List BasicFact)
+    (h : ∀ f ∈ fs, BasicOKFixed n f) :
+    ∀ t ∈ dateBasicV v fs, t.Inside n ∧ ∃ f ∈ fs, t.stop = f.m.e ∧ t.start ≤ f.m.s := by
+  intro t ht
+  unfold dateBasicV at ht
+  simp only [hv, ↓reduceIte, List.mem_map] at ht
+  obtain ⟨f, hf, rfl⟩ := ht
+  obtain ⟨⟨m0, m1, m2⟩, hr⟩ := h f hf
+  refine ⟨?_, f, hf, ?_⟩
+  · unfold dateBasicOneFixed
+    cases hrel : f.rel with
+    | none => exact ⟨m0, m1, m2⟩
+    | some c =>
+      obtain ⟨c0, c1, c2⟩ := optP_some hr hrel
+      simp only
+      split <;> (unfold Tok.Inside; simp only; omega)
+  · unfold dateBasicOneFixed
+    cases hrel : f.rel with
+    | none => simp
+    | some c =>
+      obtain ⟨c0, c1, c2⟩ := optP_some hr hrel
+      simp only
+      split
+      · exact ⟨rfl, by simp only; omega⟩
+      · exact ⟨rfl, by simp only; omega⟩
+
+/-- … on the facts of the regression input the repaired variant keeps both dates. -/
+theorem dateBasic_fixed_keeps_second_date :
+    dateBasicV Variant.repaired [⟨0, ⟨0, 5⟩, none⟩, ⟨1, ⟨10, 14⟩, none⟩] = [⟨0, 5⟩, ⟨10, 14⟩] := by decide
 
 /-- `get_tokens_from_regex` (`implicit_date`, `implicit_duration`, `BaseDateTimeExtractor.basic_regex_match`, …). -/
 theorem tokensOf_inside (n : Int) (ms : List Mt) (h : ∀ m ∈ ms, m.In n) : ∀ t ∈ tokensOf ms, t.Inside n := by
@@ -371,11 +408,14 @@ theorem tagInequality_inside (n : Int) (e : Ent) (more less : Option (CM × Int)
         · cases hi; exact hl
         · cases hi
 
-/-- … the first occurrence need not be the one in front of the duration: `"more than 2 days and more than 3 days"`,
-second duration `3 days` at `[31, 37)`, `more than` first occurs at 0 — the widened result is `[0, 37)`, the whole
-sentence (inside the text; it covers the first duration — see the C12 monitor). -/
-theorem tagInequality_first_occurrence :
-    tagInequality ⟨31, 6⟩ (some (⟨21, 9, true⟩, 0)) none = ⟨0, 37⟩ := by decide
+/-- `text.index(match.group())` is not a second slip of the `basic_regex_match` kind: the ConditionalMatch ran on the
+PREFIX `text[0:start]`, its own `index` is already the first occurrence of the matched text in that prefix, and the
+first occurrence in the whole text is the same position — so with `first = c.idx` the widened result starts
+exactly at the ConditionalMatch. (What IS lost — `"more than 2 days and more than 3 days"` tags only the first
+duration — is `match_end` searching leftmost; no span is wrong.) -/
+theorem tagInequality_starts_at_match (e : Ent) (c : CM) (hs : c.succ = true) :
+    (tagInequality e (some (c, c.idx)) none).start = c.idx := by
+  unfold tagInequality; simp [hs]
 
 /-! ## BaseDateTimeExtractor -/
 
@@ -392,8 +432,8 @@ theorem mdtPairTok_inside (n : Int) (a b : Ent) (g : Gate) (ha : a.In n) (hb : b
 
 /-- the pairing loop only ever emits such pair tokens: every token is `mdtPairTok a b g` for two results of
 different kinds at positions `i < j` with `a` ending before `b` starts and `g` one of the recorded gates. -/
-theorem mdtLoop_mem (ers : Array (Ent × Bool)) (fuel i : Nat) (gates : List Gate) (acc out : List Tok)
-    (h : mdtLoop ers fuel i gates acc = some out) :
+theorem mdtLoop_mem (v : Variant) (ers : Array (Ent × Bool)) (fuel i : Nat) (gates : List Gate) (acc out : List Tok)
+    (h : mdtLoop v ers fuel i gates acc = some out) :
     ∀ t ∈ out, t ∈ acc ∨ ∃ (i j : Nat) (a b : Ent × Bool) (g : Gate), i < j ∧ ers[i]? = some a ∧ ers[j]? = some b ∧
       g ∈ gates ∧ a.1.start + a.1.len ≤ b.1.start ∧ t = mdtPairTok a.1 b.1 g := by
   induction fuel generalizing i gates acc out with
@@ -415,33 +455,32 @@ theorem mdtLoop_mem (ers : Array (Ent × Bool)) (fuel i : Nat) (gates : List Gat
                 simp only at h
                 split at h
                 · cases h
-                · split at h
-                  · intro t ht
-                    rcases ih _ _ _ _ h t ht with hacc | ⟨i', j', a', b', g', h1, h2, h3, h4, h5, h6⟩
-                    · rw [List.mem_append] at hacc
-                      rcases hacc with hacc | hacc
-                      · exact Or.inl hacc
-                      · simp only [List.mem_singleton] at hacc
-                        refine Or.inr ⟨i, skipOverlap ers i ers.size (i + 1), a, b, g, ?_, ha, hb, by simp, by omega, hacc⟩
-                        have : ∀ fuel j, j ≤ skipOverlap ers i fuel j := by
-                          intro fuel
-                          induction fuel with
-                          | zero => intro j; simp [skipOverlap]
-                          | succ f ihf =>
-                            intro j
-                            unfold skipOverlap
-                            split
-                            · split
-                              · exact Nat.le_trans (Nat.le_succ j) (ihf (j + 1))
-                              · exact Nat.le_refl j
-                            · exact Nat.le_refl j
-                        have := this ers.size (i + 1)
-                        omega
-                    · exact Or.inr ⟨i', j', a', b', g', h1, h2, h3, by simp [h4], h5, h6⟩
-                  · intro t ht
-                    rcases ih _ _ _ _ h t ht with hacc | ⟨i', j', a', b', g', h1, h2, h3, h4, h5, h6⟩
+                · intro t ht
+                  rcases ih _ _ _ _ h t ht with hacc | ⟨i', j', a', b', g', h1, h2, h3, h4, h5, h6⟩
+                  · rw [List.mem_append] at hacc
+                    rcases hacc with hacc | hacc
                     · exact Or.inl hacc
-                    · exact Or.inr ⟨i', j', a', b', g', h1, h2, h3, by simp [h4], h5, h6⟩
+                    · simp only [List.mem_singleton] at hacc
+                      refine Or.inr ⟨i, skipOverlap ers i ers.size (i + 1), a, b, g, ?_, ha, hb, by simp, by omega, hacc⟩
+                      have : ∀ fuel j, j ≤ skipOverlap ers i fuel j := by
+                        intro fuel
+                        induction fuel with
+                        | zero => intro j; simp [skipOverlap]
+                        | succ f ihf =>
+                          intro j
+                          unfold skipOverlap
+                          split
+                          · split
+                            · exact Nat.le_trans (Nat.le_succ j) (ihf (j + 1))
+                            · exact Nat.le_refl j
+                          · exact Nat.le_refl j
+                      have := this ers.size (i + 1)
+                      omega
+                  · exact Or.inr ⟨i', j', a', b', g', h1, h2, h3, by simp [h4], h5, h6⟩
+                · intro t ht
+                  rcases ih _ _ _ _ h t ht with hacc | ⟨i', j', a', b', g', h1, h2, h3, h4, h5, h6⟩
+                  · exact Or.inl hacc
+                  · exact Or.inr ⟨i', j', a', b', g', h1, h2, h3, by simp [h4], h5, h6⟩
           · exact ih _ _ _ _ h
         · cases h; intro t ht; exact Or.inl ht
     · cases h; intro t ht; exact Or.inl ht
@@ -469,11 +508,45 @@ theorem mdtWiden_inside (n : Int) (t : Tok) (suf pre : Option Mt) (ht : t.Inside
       obtain ⟨p0, p1, p2⟩ := optP_some hp hpre
       unfold Tok.Inside; simp only; omega
 
-/-- `merge_date_and_time` raises `TypeError` (`len(<int>)`) as soon as `suffix_after_regex` matches the text between
-a date and a time (`"3 pm or later on monday"`): the merged extractor's caller swallows it and the whole query
-yields no entity. -/
+/-- PRE-FIX REGRESSION (tree without merge-date-time-len.diff): `merge_date_and_time` raises `TypeError`
+(`len(<int>)`) as soon as `suffix_after_regex` matches the text between a date and a time (`"3 pm or later on
+monday"`): the merged extractor's caller swallows it and the whole query yields no entity. -/
 theorem mergeDateAndTime_raises :
-    mergeDateAndTime [(⟨0, 4⟩, false), (⟨17, 6⟩, true)] [⟨true, false, 0⟩] [] = none := by decide
+    mergeDateAndTime Variant.current [(⟨0, 4⟩, false), (⟨17, 6⟩, true)] [⟨true, false, true, 0⟩] [] = none := by decide
+
+/-- REPAIRED variant, full strength: the pairing loop never raises — for any entities and any gate outcomes. -/
+theorem mdtLoop_total_fixed (v : Variant) (hv : v.mdtLenFixed = true) (ers : Array (Ent × Bool)) (fuel i : Nat)
+    (gates : List Gate) (acc : List Tok) : ∃ out, mdtLoop v ers fuel i gates acc = some out := by
+  induction fuel generalizing i gates acc with
+  | zero => exact ⟨acc, rfl⟩
+  | succ fuel ih =>
+    unfold mdtLoop
+    split
+    · simp only
+      split
+      · exact ⟨acc, rfl⟩
+      · split
+        · split
+          · split
+            · exact ih _ _ _
+            · cases gates with
+              | nil => exact ⟨acc, rfl⟩
+              | cons g gs =>
+                simp only
+                have hg : gateValid v g = some (if g.sufAfter then (!g.restEmpty && g.conn) else g.conn) := by
+                  unfold gateValid; simp only [hv, ↓reduceIte]; split <;> rfl
+                rw [hg]
+                cases (if g.sufAfter then (!g.restEmpty && g.conn) else g.conn) with
+                | true => exact ih _ _ _
+                | false => exact ih _ _ _
+          · exact ih _ _ _
+        · exact ⟨acc, rfl⟩
+    · exact ⟨acc, rfl⟩
+
+/-- … and on the facts of the regression input it yields the date-time token `[0, 23)`. -/
+theorem mergeDateAndTime_fixed_no_raise :
+    mergeDateAndTime Variant.repaired [(⟨0, 4⟩, false), (⟨17, 6⟩, true)] [⟨true, false, true, 0⟩] [(none, none)]
+      = some [⟨0, 23⟩] := by decide
 
 /-- `time_of_today_before`: the token runs from the start of the "this morning / tonight" match in front of the time
 to the end of the time. -/
@@ -539,106 +612,156 @@ theorem specialOne_inside (n L : Int) (e : Ent) (b a : Option CM) (he : e.In n) 
 
 /-! ## date / time / date-time PERIOD extractors: two points → one range token -/
 
-/-- the indices the from / between look-ups report lie in `[0, L]`, `L` = length of the stripped prefix ≤ start of
-the first point. -/
+/-- the from / between words, when found, lie in the prefix in front of the first point, behind its leading blanks:
+`lead ≤ index ≤ L`, `L` ≤ start of the first point. -/
 def PairOK (L : Int) (f : PairFact) : Prop :=
-  (f.fromI.matched = true → 0 ≤ f.fromI.index ∧ f.fromI.index ≤ L) ∧
-  (f.betweenI.matched = true → 0 ≤ f.betweenI.index ∧ f.betweenI.index ≤ L)
+  0 ≤ f.lead ∧ (f.fromI.matched = true → f.lead ≤ f.fromI.index ∧ f.fromI.index ≤ L) ∧
+  (f.betweenI.matched = true → f.lead ≤ f.betweenI.index ∧ f.betweenI.index ≤ L)
 
-/-- `merge_multiple_extractions` (date period) and the first loop of the date-time period extractor: the range
-token of a reached pair lies inside the text: it ends where the second point ends and starts at the first point or
-at the from / between index. -/
-theorem rangePairTok_inside (n L : Int) (k : RangeKind) (hk : k ≠ .timePeriod) (a b : Ent) (f : PairFact)
+theorem lookupIndex_bounds (v : Variant) (L : Int) (f : PairFact) (m : MI) (h0 : 0 ≤ f.lead)
+    (h : f.lead ≤ m.index ∧ m.index ≤ L) : 0 ≤ lookupIndex v f m ∧ lookupIndex v f m ≤ L := by
+  unfold lookupIndex; split <;> omega
+
+/-- `merge_multiple_extractions` (date period) and the first loop of the date-time period extractor, BOTH variants:
+the range token of a reached pair lies inside the text: it ends where the second point ends and starts at the first
+point or at the index the from / between look-up handed back. -/
+theorem rangePairTok_inside (n L : Int) (v : Variant) (k : RangeKind) (hk : k ≠ .timePeriod) (a b : Ent) (f : PairFact)
     (ha : a.In n) (hb : b.In n) (hab : a.start ≤ b.start + b.len) (hL : L ≤ a.start) (hf : PairOK L f) :
-    ∀ t, rangePairTok k a b f = some t → t.Inside n ∧ t.stop = b.start + b.len ∧ t.start ≤ a.start := by
+    ∀ t, rangePairTok v k a b f = some t → t.Inside n ∧ t.stop = b.start + b.len ∧ t.start ≤ a.start := by
   intro t ht
   obtain ⟨a0, a1, a2⟩ := ha
   obtain ⟨b0, b1, b2⟩ := hb
-  obtain ⟨hfr, hbt⟩ := hf
+  obtain ⟨hl0, hfr, hbt⟩ := hf
   have hk2 : (k == RangeKind.timePeriod) = false := by cases k <;> simp_all
+  have key : ∀ pb : Int, 0 ≤ pb → pb ≤ L →
+      (⟨pb, b.start + b.len⟩ : Tok).Inside n ∧ (⟨pb, b.start + b.len⟩ : Tok).stop = b.start + b.len ∧
+        (⟨pb, b.start + b.len⟩ : Tok).start ≤ a.start := by
+    intro pb h1 h2
+    refine ⟨?_, rfl, ?_⟩
+    · unfold Tok.Inside; simp only; omega
+    · simp only; omega
   unfold rangePairTok at ht
   simp only [hk2, Bool.false_and, Bool.false_eq_true, ↓reduceIte] at ht
   split at ht
-  · cases k with
+  · have hpb : ∀ pb : Int, pb = (if f.fromI.matched = true then lookupIndex v f f.fromI
+        else if f.betweenI.matched = true then lookupIndex v f f.betweenI else a.start) → 0 ≤ pb ∧ pb ≤ a.start := by
+      intro pb hpb
+      subst hpb
+      cases hfm : f.fromI.matched <;> cases hbm : f.betweenI.matched <;> simp only [Bool.false_eq_true, ↓reduceIte]
+      · omega
+      · have := lookupIndex_bounds v L f f.betweenI hl0 (hbt hbm); omega
+      · have := lookupIndex_bounds v L f f.fromI hl0 (hfr hfm); omega
+      · have := lookupIndex_bounds v L f f.fromI hl0 (hfr hfm); omega
+    cases k with
     | timePeriod => exact absurd rfl hk
     | datePeriod =>
       simp only [Option.some.injEq] at ht
       subst ht
-      cases hfm : f.fromI.matched <;> cases hbm : f.betweenI.matched <;>
-        simp only [Bool.false_eq_true, ↓reduceIte] <;> unfold Tok.Inside <;> simp only [true_and] <;>
-        first
-          | (have h1 := hfr hfm; omega)
-          | (have h2 := hbt hbm; omega)
-          | omega
+      have := hpb _ rfl
+      refine ⟨?_, rfl, ?_⟩
+      · unfold Tok.Inside; simp only; omega
+      · simp only; omega
     | dateTimePeriod =>
       simp only [Option.some.injEq] at ht
       subst ht
-      cases hfm : f.fromI.matched <;> cases hbm : f.betweenI.matched <;>
-        simp only [Bool.false_eq_true, ↓reduceIte] <;> unfold Tok.Inside <;> simp only [true_and] <;>
-        first
-          | (have h1 := hfr hfm; omega)
-          | (have h2 := hbt hbm; omega)
-          | omega
+      have := hpb _ rfl
+      refine ⟨?_, rfl, ?_⟩
+      · unfold Tok.Inside; simp only; omega
+      · simp only; omega
   · split at ht
     · rename_i hc
       simp only [Bool.and_eq_true] at hc
-      have := hbt hc.2
+      have := lookupIndex_bounds v L f f.betweenI hl0 (hbt hc.2)
       cases ht
-      unfold Tok.Inside; simp only [true_and]; omega
+      exact key _ this.1 (by omega)
     · cases ht
 
-/-- … inside the text, but not where "from" is: the index is an index into `source[0:begin].strip()`, so with
-leading blanks the token starts too early. `"  today from 4 jan to 5 jan"`: points `4 jan` `[13, 18)`, `5 jan`
-`[22, 27)`; stripped prefix `today from`, `from` at 6 (in the query it is at 8): the range token is `[6, 27)` =
-`"y from 4 jan to 5 jan"`, cutting into `today` `[2, 7)` — two overlapping entities in the recogniser's output. -/
+/-- REPAIRED variant (range-prefix-index.diff), full strength: when the from / between word is found the token starts
+EXACTLY at the word's offset in the source, so it cannot cut into anything that ends at or before that word: for
+every entity `p` ending at or before the word the token and `p` share no character. -/
+theorem rangePairTok_fixed_starts_at_word (v : Variant) (hv : v.rangeRstrip = true) (k : RangeKind) (a b : Ent)
+    (f : PairFact) (t : Tok) (ht : rangePairTok v k a b f = some t)
+    (hw : f.fromI.matched = true ∨ f.betweenI.matched = true) (hconn : f.till = true ∨ f.betweenI.matched = true) :
+    (t.start = f.fromI.index ∧ f.fromI.matched = true) ∨ (t.start = f.betweenI.index ∧ f.betweenI.matched = true) := by
+  unfold rangePairTok at ht
+  have hl : ∀ m, lookupIndex v f m = m.index := by intro m; unfold lookupIndex; simp [hv]
+  simp only [hl] at ht
+  split at ht
+  · simp only [Option.some.injEq] at ht
+    subst ht
+    cases k <;> cases hfm : f.fromI.matched <;> cases hbm : f.betweenI.matched <;> simp_all
+  · split at ht
+    · rename_i hc
+      simp only [Bool.and_eq_true] at hc
+      cases ht
+      exact Or.inr ⟨rfl, hc.2⟩
+    · cases ht
+
+theorem rangePairTok_fixed_clear_of_previous (v : Variant) (hv : v.rangeRstrip = true) (k : RangeKind) (a b : Ent)
+    (f : PairFact) (t : Tok) (ht : rangePairTok v k a b f = some t)
+    (hw : f.fromI.matched = true ∨ f.betweenI.matched = true) (hconn : f.till = true ∨ f.betweenI.matched = true)
+    (p : Ent) (hp1 : f.fromI.matched = true → p.start + p.len ≤ f.fromI.index)
+    (hp2 : f.betweenI.matched = true → p.start + p.len ≤ f.betweenI.index) : p.start + p.len ≤ t.start := by
+  rcases rangePairTok_fixed_starts_at_word v hv k a b f t ht hw hconn with ⟨h1, h2⟩ | ⟨h1, h2⟩
+  · have := hp1 h2; omega
+  · have := hp2 h2; omega
+
+/-- PRE-FIX REGRESSION (tree without range-prefix-index.diff): the look-up ran on `source[0:begin].strip()`, so what
+it handed back is the word's offset MINUS the leading blanks. `"  today from 4 jan to 5 jan"`: points `4 jan`
+`[13, 18)`, `5 jan` `[22, 27)`, `from` at 8, two leading blanks: the range token is `[6, 27)` = `"y from 4 jan to 5
+jan"`, cutting into `today` `[2, 7)` — two overlapping entities in the recogniser's output (C12). The repaired
+variant yields `[8, 27)` on the same facts. -/
 theorem range_from_leading_blank :
-    rangeMerge .datePeriod [⟨13, 5⟩, ⟨22, 5⟩] (fun _ => false) [⟨true, false, ⟨true, 6⟩, ⟨false, -1⟩, ⟨false, -1⟩⟩]
-      = [⟨6, 27⟩] := by decide
+    rangeMerge Variant.current .datePeriod [⟨13, 5⟩, ⟨22, 5⟩] (fun _ => false)
+      [⟨true, false, ⟨true, 8⟩, ⟨false, -1⟩, ⟨false, -1⟩, 2⟩] = [⟨6, 27⟩] ∧
+    rangeMerge Variant.repaired .datePeriod [⟨13, 5⟩, ⟨22, 5⟩] (fun _ => false)
+      [⟨true, false, ⟨true, 8⟩, ⟨false, -1⟩, ⟨false, -1⟩, 2⟩] = [⟨8, 27⟩] := by decide
 
 /-
 Full-strength statement for the time period extractor, which does not hold:
-  theorem rangePairTok_inside_time … : rangePairTok .timePeriod a b f = some t → t.Inside n
+  theorem rangePairTok_inside_time … : rangePairTok v .timePeriod a b f = some t → t.Inside n
 -/
 
 /-- time period extractor: when "between" is found in the text AFTER the second point, the end of the token is
 REPLACED by the look-up's index (an index into `source[end : len - end].strip()`), not extended: `3pm to 4pm …
 between` gives the token `(0, 0)`. -/
-theorem rangePairTok_time_after_between_witness :
-    rangePairTok .timePeriod ⟨0, 3⟩ ⟨7, 3⟩ ⟨true, false, ⟨false, -1⟩, ⟨false, -1⟩, ⟨true, 0⟩⟩ = some ⟨0, 0⟩ := by decide
+theorem rangePairTok_time_after_between_witness (v : Variant) :
+    rangePairTok v .timePeriod ⟨0, 3⟩ ⟨7, 3⟩ ⟨true, false, ⟨false, -1⟩, ⟨false, -1⟩, ⟨true, 0⟩, 0⟩ = some ⟨0, 0⟩ := by
+  cases v; rfl
 
 /-- time period extractor, guarded: without a "between" behind the range the token is inside the text. -/
-theorem rangePairTok_time_partial (n L : Int) (a b : Ent) (f : PairFact)
+theorem rangePairTok_time_partial (n L : Int) (v : Variant) (a b : Ent) (f : PairFact)
     (ha : a.In n) (hb : b.In n) (hab : a.start ≤ b.start + b.len) (hL : L ≤ a.start) (hf : PairOK L f)
     (hno : f.afterBetween.matched = false) :
-    ∀ t, rangePairTok .timePeriod a b f = some t → t.Inside n := by
+    ∀ t, rangePairTok v .timePeriod a b f = some t → t.Inside n := by
   intro t ht
   obtain ⟨a0, a1, a2⟩ := ha
   obtain ⟨b0, b1, b2⟩ := hb
-  obtain ⟨hfr, hbt⟩ := hf
+  obtain ⟨hl0, hfr, hbt⟩ := hf
   unfold rangePairTok at ht
   simp only [hno, Bool.and_false, Bool.false_eq_true, ↓reduceIte] at ht
   split at ht
   · simp only [Option.some.injEq] at ht
     subst ht
     cases hfm : f.fromI.matched <;> cases hbm : f.betweenI.matched <;>
-      simp only [Bool.false_eq_true, ↓reduceIte] <;> unfold Tok.Inside <;> simp only <;>
-      first
-        | (have h2 := hbt hbm; omega)
-        | (have h1 := hfr hfm; omega)
-        | omega
+      simp only [Bool.false_eq_true, ↓reduceIte] <;> unfold Tok.Inside <;> simp only
+    · omega
+    · have := lookupIndex_bounds v L f f.betweenI hl0 (hbt hbm); omega
+    · have := lookupIndex_bounds v L f f.fromI hl0 (hfr hfm); omega
+    · have := lookupIndex_bounds v L f f.betweenI hl0 (hbt hbm); omega
   · split at ht
     · rename_i hc
       simp only [Bool.and_eq_true] at hc
-      have := hbt hc.2
+      have := lookupIndex_bounds v L f f.betweenI hl0 (hbt hc.2)
       cases ht
       unfold Tok.Inside; simp only; omega
     · cases ht
 
 /-- the loops emit nothing but pair tokens of ADJACENT results (for the date period: with a non-empty middle). -/
-theorem rangeLoop_mem (k : RangeKind) (ers : Array Ent) (skip : Nat → Bool) (fuel i : Nat) (facts : List PairFact)
-    (acc : List Tok) :
-    ∀ t ∈ rangeLoop k ers skip fuel i facts acc, t ∈ acc ∨ ∃ (j : Nat) (a b : Ent) (f : PairFact),
-      ers[j]? = some a ∧ ers[j + 1]? = some b ∧ f ∈ facts ∧ rangePairTok k a b f = some t ∧
+theorem rangeLoop_mem (v : Variant) (k : RangeKind) (ers : Array Ent) (skip : Nat → Bool) (fuel i : Nat)
+    (facts : List PairFact) (acc : List Tok) :
+    ∀ t ∈ rangeLoop v k ers skip fuel i facts acc, t ∈ acc ∨ ∃ (j : Nat) (a b : Ent) (f : PairFact),
+      ers[j]? = some a ∧ ers[j + 1]? = some b ∧ f ∈ facts ∧ rangePairTok v k a b f = some t ∧
       (k = .datePeriod → a.start + a.len < b.start) := by
   induction fuel generalizing i facts acc with
   | zero => intro t ht; exact Or.inl (by simpa [rangeLoop] using ht)
@@ -667,7 +790,7 @@ theorem rangeLoop_mem (k : RangeKind) (ers : Array Ent) (skip : Nat → Bool) (f
               split at ht
               · rename_i tk htk
                 have hnew : ∀ t', t' ∈ acc ++ [tk] → t' ∈ acc ∨ ∃ (j : Nat) (a b : Ent) (f' : PairFact),
-                    ers[j]? = some a ∧ ers[j + 1]? = some b ∧ f' ∈ f :: fs ∧ rangePairTok k a b f' = some t' ∧
+                    ers[j]? = some a ∧ ers[j + 1]? = some b ∧ f' ∈ f :: fs ∧ rangePairTok v k a b f' = some t' ∧
                     (k = .datePeriod → a.start + a.len < b.start) := by
                   intro t' ht'
                   rw [List.mem_append] at ht'
